@@ -7,6 +7,9 @@ TOpen   == IsEvent("Open") /\ Open(Ev.valid, Ev.plen, Ev.hdrOK, Ev.err) /\ Consu
 TRead   == IsEvent("Read") /\ Read(Ev.k, Ev.n, Ev.err, Ev.match) /\ Consume
 TClose  == IsEvent("Close") /\ Close(Ev.err, Ev.canonOK) /\ Consume
 (* Panic, Spin (read budget exhausted) and Hang events match no action *)
-TraceNext == TWrite \/ TWClose \/ TOpen \/ TRead \/ TClose
+(* C07: the reference codec (Lzhuf.tla evaluated by TLC) decoded a stream the library produced: its output must be   *)
+(* the input, it must have used the stream's bits up to the padding, and the B2 header must be as specified          *)
+TRefDecode == IsEvent("RefDecode") /\ Ev.equal /\ Ev.padOK /\ Ev.hdrOK /\ UNCHANGED vars /\ Consume
+TraceNext == TRefDecode \/ TWrite \/ TWClose \/ TOpen \/ TRead \/ TClose
 TraceSpec == TraceInit /\ [][TraceNext]_<<vars, tvars>>
 =============================================================================
